@@ -323,18 +323,11 @@ Section Theorems.
   Notation info_fails' := (info_fails process_info).
   Notation behaves' := (behaves process process_info filt hook).
   Notation item_ok' := (item_ok process process_info filt hook).
-
-  (* a valid message for the mode: the decode the scanner performs succeeds on
-     m ++ t for every t with the same result, and the length it advances by
-     (consumed bytes in full mode, declared total length in metadata-only mode)
-     is the length of m *)
-  Definition valid_msg (io : bool) (m : list byte) : Prop :=
-    if io then info_ok' m else full_ok' m.
-  Definition fails (io : bool) (m : list byte) (e : err) : Prop :=
-    if io then info_fails' m e else full_fails' m e.
+  Notation valid_msg' := (valid_msg process process_info hook).
+  Notation fails' := (fails process process_info).
 
   Lemma behaves_deliver io coe m sp :
-    valid_msg io m -> behaves' io coe false m sp BDeliver.
+    valid_msg' io m -> behaves' io coe false m sp BDeliver.
   Proof.
     intros H t. unfold step, attempt, decode_step, piece_of.
     destruct io; cbn in H; destruct H as (mi & Hp & Hrest).
@@ -385,7 +378,7 @@ Section Theorems.
   Qed.
 
   Lemma behaves_raise io coe m sp e :
-    fails io m e -> (coe = false \/ is_lib_err e = false) ->
+    fails' io m e -> (coe = false \/ is_lib_err e = false) ->
     behaves' io coe false m sp (BRaise e).
   Proof.
     intros Hf Hc t. unfold step, attempt, decode_step, recover.
@@ -393,13 +386,10 @@ Section Theorems.
       (destruct Hc as [-> | ->]; [now destruct (is_lib_err e)|reflexivity]).
   Qed.
 
-  Definition stream_ok (P : list byte -> Prop) (l : list (list byte * list byte)) : Prop :=
-    Forall (fun x => starts_sig (fst x) /\ nosig (snd x) /\ P (fst x)) l.
-
   (* ---- C11 ---- *)
 
   Theorem scan_exact io coe sep0 l :
-    nosig sep0 -> stream_ok (valid_msg io) l ->
+    nosig sep0 -> stream_ok (valid_msg' io) l ->
     generate' io coe false (sep0 ++ assemble l) = (map fst l, None).
   Proof.
     intros Hsep Hl.
@@ -423,7 +413,7 @@ Section Theorems.
   Qed.
 
   Corollary scan_filter_is_filter_of_scan io coe (p : list byte -> bool) sep0 l :
-    nosig sep0 -> stream_ok (valid_msg io) l -> stream_ok (fun m => filt_ok' io m (p m)) l ->
+    nosig sep0 -> stream_ok (valid_msg' io) l -> stream_ok (fun m => filt_ok' io m (p m)) l ->
     fst (generate' io coe true (sep0 ++ assemble l)) =
     filter p (fst (generate' io coe false (sep0 ++ assemble l))).
   Proof. intros Hs H1 H2. rewrite (scan_filter io coe p), scan_exact by assumption. reflexivity. Qed.
@@ -431,7 +421,7 @@ Section Theorems.
   (* the pieces written out one after the other are the messages one after the
      other; without separators that is the input itself *)
   Corollary concat_pieces io coe sep0 l :
-    nosig sep0 -> stream_ok (valid_msg io) l ->
+    nosig sep0 -> stream_ok (valid_msg' io) l ->
     concat (fst (generate' io coe false (sep0 ++ assemble l))) = concat (map fst l).
   Proof. intros Hs Hl. now rewrite scan_exact. Qed.
 
@@ -440,7 +430,7 @@ Section Theorems.
   Proof. induction ms as [|m ms IH]; cbn; [reflexivity|now rewrite IH]. Qed.
 
   Corollary concat_pieces_identity io coe (ms : list (list byte)) :
-    Forall (fun m => starts_sig m /\ valid_msg io m) ms ->
+    Forall (fun m => starts_sig m /\ valid_msg' io m) ms ->
     concat (fst (generate' io coe false (concat ms))) = concat ms.
   Proof.
     intros H. rewrite <- (assemble_no_sep ms).
@@ -455,7 +445,7 @@ Section Theorems.
      never a scan position: one message comes out, with its exact bytes *)
   Corollary signature_inside_body_not_scanned io coe sep0 b1 b2 b3 sep1 :
     let m := sig ++ b1 ++ sig ++ b2 ++ [55; 55; 55; 55]%N ++ b3 in
-    nosig sep0 -> nosig sep1 -> valid_msg io m ->
+    nosig sep0 -> nosig sep1 -> valid_msg' io m ->
     generate' io coe false (sep0 ++ m ++ sep1) = ([m], None).
   Proof.
     intros m Hs0 Hs1 Hv.
@@ -489,8 +479,8 @@ Section Theorems.
   Qed.
 
   Lemma scan_raises io coe sep0 l m rest e :
-    nosig sep0 -> stream_ok (valid_msg io) l ->
-    starts_sig m -> fails io m e -> (coe = false \/ is_lib_err e = false) ->
+    nosig sep0 -> stream_ok (valid_msg' io) l ->
+    starts_sig m -> fails' io m e -> (coe = false \/ is_lib_err e = false) ->
     generate' io coe false (sep0 ++ assemble l ++ m ++ rest) = (map fst l, Some e).
   Proof.
     intros Hsep Hl Hm Hf Hc.
@@ -516,14 +506,14 @@ Section Theorems.
   (* without continue_on_error the messages before the damaged one are delivered
      and then the error surfaces — whatever follows the damaged message *)
   Theorem scan_stops_at_error io sep0 l m rest e :
-    nosig sep0 -> stream_ok (valid_msg io) l -> starts_sig m -> fails io m e ->
+    nosig sep0 -> stream_ok (valid_msg' io) l -> starts_sig m -> fails' io m e ->
     generate' io false false (sep0 ++ assemble l ++ m ++ rest) = (map fst l, Some e).
   Proof. intros. apply scan_raises; auto. Qed.
 
   (* an exception that is not a PyBufrKitError (e.g. AssertionError, D10) is not
      caught, continue_on_error or not *)
   Theorem non_library_error_escapes io coe sep0 l m rest e :
-    nosig sep0 -> stream_ok (valid_msg io) l -> starts_sig m -> fails io m e ->
+    nosig sep0 -> stream_ok (valid_msg' io) l -> starts_sig m -> fails' io m e ->
     is_lib_err e = false ->
     generate' io coe false (sep0 ++ assemble l ++ m ++ rest) = (map fst l, Some e).
   Proof. intros. apply scan_raises; auto. Qed.
@@ -795,3 +785,12 @@ Module Toy.
     gen true false false (m2 ++ zero ++ m2) = (m2 :: repeat [] 24, Some EFuel).
   Proof. vm_compute; reflexivity. Qed.
 End Toy.
+
+Lemma zero_declared_length_refuted_exists :
+  exists s, forall fuel,
+    snd (scan Toy.full Toy.info Toy.filt Toy.hook true false false fuel s 8) = Some EFuel.
+Proof.
+  exists (Toy.m2 ++ Toy.zero ++ Toy.m2). intros fuel.
+  now rewrite Toy.zero_declared_length_refuted.
+Qed.
+
